@@ -9,7 +9,7 @@ CLAIMED = {
  'C06': ('recorded value = transform(last assigned value) (MeasuredValue.set), outcome PASS exactly when every attached validator accepts the recorded '
          'value else FAIL, marginal iff PASS and some validator deems the value marginal, a raising validator / transform (first one in evaluation order) '
          'fails the measurement and propagates, assignment to an undeclared name or to a dimensioned measurement without coordinates is rejected and changes '
-         'nothing, other measurements untouched (Collection.__setitem__), with_validator / validate_on only append, wrong number of coordinates rejected, '
+         'nothing, other measurements untouched (Collection.__setitem__), with_validator / validate_on only append, wrong number of coordinates (scalar, or tuple of the wrong length) rejected, '
          'dimensioned measurements become PARTIALLY_SET and are validated at phase end, nothing leaves a phase PARTIALLY_SET (PhaseState._finalize_measurements)',
          'validators / transform / is_marginal are deterministic opaque functions that return or raise; the positive path of DimensionedMeasuredValue.__setitem__ '
          '(tuple-keyed insertion order) and the activation of conditional validators in PhaseState.from_descriptor (deepcopy per declared measurement) are not under contract; '
@@ -28,7 +28,8 @@ CLAIMED = {
          'sequential order and lock-discipline obligations only: "under no interleaving does the executor deadlock / start a phase after abort returned / run two '
          'bodies at once" quantifies over schedules and is outside this technique; PhaseExecutor.stop (kill / wait handshake) is used by contract'),
  'C05': ('decision table of PhaseState.finalize (result kind x measurements x stop_on_measurement_fail x diagnosers) with its helpers, result validation in the '
-         'phase thread, join_or_die (stored outcome wins, no false timeout), one record per invocation in _execute_phase_once, run_if rules, '
+         'phase thread, join_or_die (stored outcome wins, no false timeout), one record per invocation in _execute_phase_once and that record keeps the result the phase '
+         'thread returned (only finalization may replace it), run_if rules, '
          'repeat loop bound (at most repeat_limit invocations) with loop invariants; skip_phase',
          'thread start/join, the user phase body, run_if and diagnosers are opaque (trusted model: contracts/_trusted.py, frame assumption *user); '
          'DiagnosesManager._convert_result (generator) is assumed, not verified; known finding: ERROR record left behind by forced repeats'),
@@ -50,11 +51,12 @@ CLAIMED = {
          'record-completeness clauses (every phase record has outcome / options / start <= end) are C05 / C01 matters'),
  'C10': ('TestRecord.as_base_types renders every record list (phases, subtests, branches, checkpoints, diagnoses, log records) from its cache; every add_*_record '
          'appends to the list and to its cache in lockstep, the cache entry being the rendering of the new record; MeasuredValue caches the rendering of the '
-         'recorded post-transform value; convert_to_base_types on scalars passes None / bool / int / str / finite floats through and never returns a non-finite '
+         'recorded post-transform value; Measurement.validate keeps the cached outcome equal to the in-memory outcome on the normal and on the exceptional exit; '
+         'convert_to_base_types on scalars passes None / bool / int / str / finite floats through and never returns a non-finite '
          'float when json_safe (strict JSON)',
          'container / attrs / namedtuple recursion of convert_to_base_types is used as a pure function only; the dimensioned-measurement cache, PhaseState._cached / '
-         '_update_measurements (functools.partial closures) and json.dumps are outside the subset: two of the three seeded changes for this property are in '
-         'those parts and are not detected'),
+         '_update_measurements (functools.partial closures) and json.dumps are outside the subset: two of the five seeded changes for this property are in '
+         'those parts and are not detected, one (type(value) in a frozenset of types) leaves the unit undecided'),
  'C12': ('KillableThread.kill always records the request, never raises into a thread that is not alive, at most one asynchronous raise; KillableThread.run: a kill '
          'requested before the start prevents the body, the body runs at most once and only inside the running lock, the finish hook runs exactly once on every exit; '
          'PhaseExecutorThread.join_or_die (stored outcome wins, TIMEOUT only if still alive after the deadline, the thread is killed then)',
@@ -78,15 +80,20 @@ CLAIMED = {
  'C14': ('routing of an incoming packet by local id (returned to the waiting stream iff addressed to it, else queued on the addressed stream, dropped for unknown '
          'ids), every device WRTE acknowledged by exactly one OKAY carrying that stream\'s local and remote ids, stream sends carry the stream\'s ids and at most maxdata '
          'bytes, a host write is split into chunks <= maxdata that concatenate to the data, one WRTE in flight (a write while an OKAY is outstanding is refused and '
-         'an unacknowledged WRTE stays recorded), received WRTE data is buffered exactly once in order, maxdata is the value the device announced',
-         'no deadlock / no lost wake-up / timeouts of blocked readers (read_for_stream, _read_messages_until_true) are schedule-quantified and outside this technique; '
-         'the latter is used by trusted contract'),
+         'an unacknowledged WRTE stays recorded), received WRTE data is buffered exactly once in order, maxdata is the value the device announced; '
+         'read_for_stream: per-call reader rules (see note)',
+         'AdbConnection.read_for_stream is verified for one caller at a time (queued messages are delivered first and in order, at most one message is taken per call, a '
+         'closed stream still delivers what was queued for it, AdbStreamClosedError only for an unregistered stream with an empty queue, wire frames are read only '
+         'while holding the connection reader lock, locks balanced on every exit), with queue.Queue modelled as (items, head), the caller view of read_message '
+         'abstracted from its C13 contract, a device that never sends READY with remote id 0 and monotone timeout expiry as stated assumptions; '
+         'no deadlock / no lost wake-up / timeouts of blocked readers are schedule-quantified and outside this technique; _read_messages_until_true is used by trusted contract'),
  'C15': ('remote id set once by the first OKAY and never changed, OKAY / CLSE / WRTE handling of a stream, close from either side answered by exactly one CLSE with '
          'the stream\'s ids and the id released (closing twice sends nothing), packet types illegal mid-session raise AdbProtocolError (defect found and fixed), '
          'AdbConnection.__init__ (maxdata, banner split, malformed banner), connect(): CNXN first, only TOKEN challenges are signed, keys tried in order each at '
-         'most once, at most one public key, a connection only after the CNXN of the device with its maxdata',
-         'read_until (skipping unrelated packets) and the signers are used by trusted contract; local id allocation (_make_stream_transport: itertools) is not under '
-         'contract: the seeded change there is not detected'),
+         'most once, at most one public key, a connection only after the CNXN of the device with its maxdata; _make_stream_transport: the allocated local id is non-zero, '
+         'below the id limit and distinct from every registered stream, the new stream is registered under it, PENDING, without remote id, with an empty queue of its own',
+         'read_until (skipping unrelated packets) and the signers are used by trusted contract; itertools.chain / islice over integer ranges and list(dict.keys()) are trusted '
+         'symbolic models; open_stream / ensure_opened are not under contract'),
  'C16': ('response loop (INFO forwarded in order, OKAY payload returned, FAIL / out-of-place DATA or OKAY / unknown header raise the prescribed error), '
          'one "command[:arg]" packet per command, download announcement "download:%08x", image bytes only after DATA with exactly that size, '
          'exactly the image in order in chunks <= chunk size, cumulative progress, progress-callback failures absorbed (coroutine contract); '
@@ -94,7 +101,7 @@ CLAIMED = {
          'usb handle and StringIO-like source are trusted ghost models; unhexlify / struct.unpack(">I") / "%08x" round trip is a trusted fact; '
          'partial correctness only for _write (the announced length must equal what the source holds); fastboot_device.py not under contract'),
  'C17': ('ghost file-system invariant "the destination only ever receives the complete serialization", checked after every file-system operation of '
-         'Atomic, OutputToFile.__call__ (str and chunked serializers, serializer failing after k chunks, every write/close/move failing) and atomic_write',
+         'Atomic, OutputToFile.__call__ (str and chunked serializers, serializer interrupted after k chunks by any BaseException incl. a thread kill, every write/close/move failing) and atomic_write',
          'file-system model is trusted (atomic rename on one file system, buffered writes reach the file as a prefix until close succeeds)'),
 }
 props = [json.loads(l) for l in open(os.path.join(V, 'properties.jsonl'))]
